@@ -12,6 +12,8 @@ type Function struct {
 	Name      string
 	Value     func(...Object) Object
 	ForUpdate bool
+	// Arity is the number of operands the function takes
+	Arity int
 }
 
 // Inspect returns the readable value of the object
@@ -29,41 +31,61 @@ func (fn *Function) ToDynamoDB() types.Item {
 	return types.Item{}
 }
 
+// call checks the number of operands before running the function
+func (fn *Function) call(args ...Object) Object {
+	if len(args) != fn.Arity {
+		return newError(
+			"incorrect number of operands for operator or function; operator or function: %s, number of operands: %d",
+			fn.Name, len(args),
+		)
+	}
+
+	return fn.Value(args...)
+}
+
 var (
 	functions = map[string]*Function{
 		"attribute_exists": &Function{
 			Name:  "attribute_exists",
 			Value: attributeExists,
+			Arity: 1,
 		},
 		"attribute_not_exists": &Function{
 			Name:  "attribute_not_exists",
 			Value: attributeNotExists,
+			Arity: 1,
 		},
 		"attribute_type": &Function{
 			Name:  "attribute_type",
 			Value: attributeType,
+			Arity: 2,
 		},
 		"begins_with": &Function{
 			Name:  "begins_with",
 			Value: beginsWith,
+			Arity: 2,
 		},
 		"contains": &Function{
 			Name:  "contains",
 			Value: contains,
+			Arity: 2,
 		},
 		"size": &Function{
 			Name:  "size",
 			Value: objectSize,
+			Arity: 1,
 		},
 		"if_not_exists": &Function{
 			Name:      "if_not_exists",
 			Value:     ifNotExists,
 			ForUpdate: true,
+			Arity:     2,
 		},
 		"list_append": &Function{
 			Name:      "list_append",
 			Value:     listAppend,
 			ForUpdate: true,
+			Arity:     2,
 		},
 	}
 )
